@@ -45,7 +45,16 @@ ConfigsQuick == {Three, Over}
 BaseS == [Base EXCEPT !.outcomes = O2]
 AsyncS == [Async EXCEPT !.outcomes = O2, !.close = FALSE]
 ConfigsFull == {BaseS, Seq2, Over, AsyncS, Three}
+Live0 == [Base EXCEPT !.nparts = [t |-> 1], !.outcomes = O3,
+          !.plan = ( 1 :> [g |-> 1, msgs |-> <<M(1, ""), M(1, "")>>, cancellable |-> FALSE]
+                  @@ 2 :> [g |-> 2, msgs |-> <<M(2, "")>>, cancellable |-> FALSE] )]
 ConfigsLive == {Live1}
+ConfigsLiveFull == {Live0, Live1}
+Live00 == [Live0 EXCEPT !.batchSize = 3,
+          !.plan = ( 1 :> [g |-> 1, msgs |-> <<M(1, ""), M(1, "")>>, cancellable |-> FALSE] )]
+ConfigsLiveQuick == {Live00}
+OnlyLive00 == {Live00}
+OnlyLive0 == {Live0}
 
 OnlyBase == {BaseS}
 OnlyOver == {Over}
